@@ -53,6 +53,11 @@ func setAllNilSlicesToEmptyRecursive(rv reflect.Value) {
 
 	if rv.Kind() == reflect.Struct {
 		for _, field := range rv.Fields() {
+			// skip unexported fields (they belong to opaque types like regexp.Regexp)
+			if !field.CanSet() {
+				continue
+			}
+
 			switch field.Kind() {
 			case reflect.Slice:
 				if field.IsNil() {
@@ -566,9 +571,6 @@ func Load(fpath string, defaultConfPaths []string, l logger.Writer) (*Conf, stri
 		return nil, "", err
 	}
 
-	// disallow nil slices for ease of use and compatibility
-	setAllNilSlicesToEmptyRecursive(reflect.ValueOf(conf))
-
 	err = conf.Validate(l)
 	if err != nil {
 		return nil, "", err
@@ -626,6 +628,11 @@ func (conf *Conf) Validate(l logger.Writer) error {
 	if l == nil {
 		l = &nilLogger{}
 	}
+
+	// disallow nil slices for ease of use and compatibility.
+	// this is done here and not when loading, since nil slices
+	// can be introduced by API edits too.
+	setAllNilSlicesToEmptyRecursive(reflect.ValueOf(conf))
 
 	// General (deprecated params)
 
